@@ -69,6 +69,10 @@ func spanProblem(o Obs, lo, hi int) string {
 
 const importFlake = "could not import github.com/quasilyte/go-ruleguard/dsl"
 
+// debugFunc: the LoadContext asks for the disassembly of the custom function of that name (and for the importer's trace):
+// the debug output is part of Load
+var debugFunc string
+
 func loadObs(fset *token.FileSet, src []byte) (e *ruleguard.Engine, o Obs) {
 	for try := 0; try < 4; try++ {
 		e, o = loadObs1(fset, src, 5*time.Second)
@@ -99,7 +103,11 @@ func loadObs1(fset *token.FileSet, src []byte, limit time.Duration) (*ruleguard.
 			ch <- r
 		}()
 		e := ruleguard.NewEngine()
-		err := e.Load(&ruleguard.LoadContext{Fset: fset}, "rules.go", strings.NewReader(string(src)))
+		lc := &ruleguard.LoadContext{Fset: fset}
+		if debugFunc != "" {
+			lc.DebugFunc, lc.DebugImports, lc.DebugPrint = debugFunc, true, func(string) {}
+		}
+		err := e.Load(lc, "rules.go", strings.NewReader(string(src)))
 		if err != nil {
 			r = res{nil, Obs{Kind: "error", Err: err.Error(), Located: namesLine(err.Error(), []byte(src))}}
 		} else {
@@ -620,6 +628,26 @@ var notDSL = []string{
 	"func init() { (dsl.ImportRules)(`p`, dsl.Bundle{}) }",
 	"func g(m dsl.Matcher) { m.MatchComment().Report(`x`) }",
 	"func g(m dsl.Matcher) { m.Match().Report(`x`) }",
+	// the ways a file can import the dsl package (entries that begin with the package clause are taken as they are), and values
+	// that are merely NAMED dsl in files that do not import it under that name
+	"package gorules\n\nimport d \"github.com/quasilyte/go-ruleguard/dsl\"\n\nfunc g(m d.Matcher) { m.Match(`$x + $y`).Where(m[`x`].Pure).Report(`x`) }\n",
+	"package gorules\n\nimport d \"github.com/quasilyte/go-ruleguard/dsl\"\n\nfunc g(m d.Matcher) { m.Match(`$x + $y`).Report(`x`) }\n\nfunc init() { d.ImportRules(`p`, d.Bundle{}) }\n",
+	"package gorules\n\nimport . \"github.com/quasilyte/go-ruleguard/dsl\"\n\nfunc g(m Matcher) { m.Match(`$x + $y`).Where(m[`x`].Pure).Report(`x`) }\n\nfunc init() { ImportRules(`p`, Bundle{}) }\n",
+	"package gorules\n\nimport . \"github.com/quasilyte/go-ruleguard/dsl\"\n\nfunc flt(ctx *VarFilterContext) bool { return ctx.Type != nil }\n\nfunc g(m Matcher) { m.Match(`$x + $y`).Where(m[`x`].Filter(flt)).Report(`x`) }\n",
+	"package gorules\n\nimport d \"github.com/quasilyte/go-ruleguard/dsl\"\n\nfunc flt(ctx *d.VarFilterContext) bool { return ctx.Type != nil }\n\nfunc g(m d.Matcher) { m.Match(`$x + $y`).Where(m[`x`].Filter(flt)).Report(`x`) }\n",
+	"package gorules\n\nimport (\n\td \"github.com/quasilyte/go-ruleguard/dsl\"\n\t\"github.com/quasilyte/go-ruleguard/dsl\"\n)\n\nfunc g(m d.Matcher) { m.Match(`$x + $y`).Report(`x`) }\n\nfunc init() { d.ImportRules(`p`, dsl.Bundle{}) }\n",
+	"package gorules\n\nimport _ \"github.com/quasilyte/go-ruleguard/dsl\"\n\nfunc helper() {}\n",
+	"package gorules\n\nfunc helper(n int) int { return n }\n",
+	"package gorules\n",
+	"package gorules\n\ntype T struct{}\n\nfunc (T) ImportRules() {}\n\nvar dsl T\n\nfunc init() { dsl.ImportRules() }\n",
+	"package gorules\n\ntype T struct{}\n\nfunc (T) ImportRules(a string) {}\n\nvar dsl T\n\nfunc init() { dsl.ImportRules(`p`) }\n",
+	"package gorules\n\ntype T struct{ f int }\n\nfunc (T) ImportRules(a string, b int) {}\n\nvar dsl T\n\nfunc init() { dsl.ImportRules(`p`, dsl.f) }\n",
+	"package gorules\n\ntype T struct{}\n\nfunc (T) ImportRules(a, b int) {}\n\nvar dsl T\n\nfunc init() { dsl.ImportRules(1, 2) }\n",
+	"package gorules\n\nimport d \"github.com/quasilyte/go-ruleguard/dsl\"\n\ntype T struct{}\n\nfunc (T) ImportRules() {}\n\nvar dsl T\n\nfunc g(m d.Matcher) { m.Match(`$x + $y`).Report(`x`) }\n\nfunc init() { dsl.ImportRules() }\n",
+	"package gorules\n\nimport . \"github.com/quasilyte/go-ruleguard/dsl\"\n\ntype T struct{}\n\nfunc (T) ImportRules() {}\n\nvar dsl T\n\nfunc g(m Matcher) { m.Match(`$x + $y`).Report(`x`) }\n\nfunc init() { dsl.ImportRules() }\n",
+	"package gorules\n\nimport dsl \"strings\"\n\nfunc init() { dsl.ToUpper(`a`) }\n",
+	"package gorules\n\nimport \"github.com/quasilyte/go-ruleguard/dsl\"\n\ntype T struct{ b dsl.Bundle }\n\nvar tv T\n\nfunc init() { dsl.ImportRules(`p`, tv.b) }\n",
+	"package gorules\n\nimport \"github.com/quasilyte/go-ruleguard/dsl\"\n\nfunc init() { dsl.ImportRules(`p`, (dsl.Bundle{})) }\n\nfunc init() { dsl.ImportRules(`q`, dsl.Bundle{}) }\n",
 }
 
 // ------------------------------------------------------------------ stream "bytes"
@@ -914,7 +942,9 @@ func main() {
 				continue
 			}
 			c := Case{Stream: stream, ID: id, Src: f.src, What: f.what}
+			debugFunc = f.debug
 			_, c.Obs = loadObs(t.Fset, []byte(f.src))
+			debugFunc = ""
 			c.Span = spanProblem(c.Obs, f.lo, f.hi)
 			if (i+int(*seed))%8 == 0 {
 				c.Shift = shiftProblem(t.Fset, []byte(f.src), c.Obs)
@@ -977,6 +1007,9 @@ func main() {
 		src := "package gorules\n\nimport \"github.com/quasilyte/go-ruleguard/dsl\"\n\nvar _ dsl.Matcher\n\n" + body + "\n"
 		if strings.HasPrefix(body, "import ") {
 			src = "package gorules\n\nimport \"github.com/quasilyte/go-ruleguard/dsl\"\n" + body + "\n"
+		}
+		if strings.HasPrefix(body, "package ") {
+			src = body
 		}
 		if !begin("notdsl", src) {
 			continue
